@@ -23,7 +23,8 @@ PROPERTY = "C16"
 LEVEL = "exploration"
 RULE = (
     "cases = job DAG specs from harness.genjob (0..14 tasks quick / 0..30 thorough; multi-output tasks, positional+keyword "
-    "edges, multi-edges, isolated tasks, name order != topological order) plus ALL labelled DAGs over a fixed topological "
+    "edges, multi-edges, isolated tasks, name order != topological order, job.edges in generated order, output names that tie numerically, "
+    "twin tasks and shared callables) plus ALL labelled DAGs over a fixed topological "
     "order on 1..5 (quick) / 1..6 (thorough) single-output tasks; non-trivial = >=2 weakly connected components or a diamond "
     "(a task with two distinct parents that share an ancestor-or-self); distinct = fingerprint of the canonical spec"
 )
